@@ -96,10 +96,12 @@ def run(ctx):
     nmax = ctx.scale(18, 70)
     classes = ["FuzzyART", "ART1", "HypersphereART", "EllipsoidART", "GaussianART", "BayesianART"]
     Ndual = ctx.scale(150, 3000)
-    for i in range(N + Ndual):
+    Ntopo = ctx.scale(150, 3000)
+    for i in range(N + Ndual + Ntopo):
         r = gen.rng_for(ctx.seed, "C02", i)
-        forced_dual = i >= N
-        cls = classes[i % len(classes)] if not forced_dual else ["FuzzyART", "HypersphereART", "EllipsoidART"][i % 3]
+        forced_dual = N <= i < N + Ndual
+        forced_topo = i >= N + Ndual
+        cls = classes[i % len(classes)] if not (forced_dual or forced_topo) else ["FuzzyART", "HypersphereART", "EllipsoidART"][i % 3]
         d = r.randint(1, 3) if not forced_dual else r.randint(2, 3)
         n = r.randint(2, nmax)
         spec = specs.elem_spec(r, cls, specs.width(cls, d) if cls != "FuzzyART" else d)
@@ -132,6 +134,17 @@ def run(ctx):
             host = "DualVigilanceART/"
             spec["rho"] = r.choice([0.75, 0.875, 0.8])
             use_reset = r.random() < 0.2
+        if forced_topo:
+            # two categories with a non-degenerate region resonate for the same sample: low vigilance, a generous
+            # size budget, slow learning for the second winner (beta_lower < beta)
+            host = "TopoART/"
+            spec["rho"] = r.choice([0.0, 0.125, 0.25])
+            spec["beta"] = r.choice([1.0, 0.5])
+            if cls in ("HypersphereART", "EllipsoidART"):
+                spec["r_hat"] = r.choice([2.0, 4.0])
+                spec["alpha"] = max(spec["alpha"], 2.0 ** -10)
+            use_reset = r.random() < 0.2
+            cov.hit("forced-topo-two-winners")
         rep = {"class": cls, "host": host, "spec": spec, "X": X.tolist(), "mode": mode, "reset": use_reset, "veto": vt if use_reset else None}
         try:
             m = make(spec)
@@ -147,7 +160,8 @@ def run(ctx):
                 est = make({"cls": "DualVigilanceART", "base_module": spec, "rho_lower_bound": lb})
                 m = est.base_module
             elif host == "TopoART/":
-                est = make({"cls": "TopoART", "base_module": spec, "beta_lower": r.choice([b for b in [0.0, 0.5, 1.0] if b <= spec["beta"]]),
+                est = make({"cls": "TopoART", "base_module": spec,
+                            "beta_lower": r.choice([b for b in ([0.0, 0.5, 1.0] if not forced_topo else [0.0, 0.25, 0.5]) if b <= spec["beta"]]),
                             "tau": 1000, "phi": 1})
                 m = est.base_module
             else:
